@@ -163,6 +163,19 @@ def r16_3(ctx):
     bd = m.func('queues:Queue._after_fork')
     ok = any(ast.unparse(v) == 'collections.deque()' for (dn, t, v) in q.assigns(bd, 'self._buffer'))
     ctx.ob('R16.3', 'buffer-is-a-deque', ok, bd, None, 'self._buffer = collections.deque()')
+    # one feeder per queue: "is there a feeder? no -> start one" is atomic among the producer threads of a process
+    # (two feeders take turns on the buffer and the order of one producer's items on the pipe is lost)
+    n_st = 0
+    for qn, fi in sorted(m.funcs.items()):
+        if fi.module.name != 'queues':
+            continue
+        for (n, c) in q.calls(fi, 'self._start_thread'):
+            n_st += 1
+            ok = _in_with(fi, c, ('self._notempty',)) and q.has_guard(fi, n, 'self._thread is None', True)
+            ctx.ob('R16.3', '%s:feeder-started-once-under-the-buffer-lock' % qn.split(':')[1], ok, fi, c,
+                   'if self._thread is None: self._start_thread() inside `with self._notempty`' if ok else
+                   'test-and-start of the feeder thread is not atomic: two producer threads can each start a feeder')
+    q.need(n_st >= 1, 'start of the feeder thread not found in Queue.put / JoinableQueue.put')
 
 
 def r16_4(ctx):
@@ -227,6 +240,8 @@ def run(ctx):
 
 _Q = 'billiard/queues.py'
 MUTANTS = [
+    ('feeder-started-outside-the-buffer-lock', _Q, "        with self._notempty:\n            if self._thread is None:\n                self._start_thread()\n            self._buffer.append(obj)\n",
+     "        if self._thread is None:\n            self._start_thread()\n        with self._notempty:\n            self._buffer.append(obj)\n", 'R16.3'),
     ('acquire-inside-try', _Q, "            if not self._rlock.acquire(block, timeout):\n                raise Empty\n            try:\n                if block:",
      "            try:\n                if not self._rlock.acquire(block, timeout):\n                    raise Empty\n                if block:", 'R16.1'),
     ('blocking-get-unlocked', _Q, "            with self._rlock:\n                res = self._recv_bytes()\n            self._sem.release()", "            res = self._recv_bytes()\n            self._sem.release()", 'R16.1'),
